@@ -61,7 +61,7 @@ CHECKS["C03"] = dict(
     design="6 (C03)", technique="Coq proof of totality and error kinds for all decoders + malformed-stream differential correspondence + live twin-state checks", note=COMMON_NOTE)
 CHECKS["C20"] = dict(
     text="Coq theorems: every accepted SOME/IP message and every accepted SD entry re-encodes without error to exactly the consumed bytes and decodes again to the same value; "
-         "options and SD headers inside wf_opt / wf_sd re-decode to themselves (the statement for every accepted option / SD input is named partial in Properties/C20.v). "
+         "every accepted SD option and every accepted whole SD message re-encodes without error and decodes again to the same value with nothing left over (the image of each decoder is characterised: wf_opt / wf_sd, a configuration option = item encodings + zero byte + ignored tail). "
          "Correspondence: decode-encode-decode cycle on the implementation for accepted inputs reached by mutation and by an independent non-canonical SD encoder.",
     design="6 (C20)", technique="Coq proof (parse soundness via pack/unpack inverses, bit-field lemmas) + differential correspondence with a non-canonical encoder", note=COMMON_NOTE)
 
